@@ -594,6 +594,59 @@ func runCheck(o *Options) (int, *Evidence) {
 			_ = os.WriteFile(fpFile, append(b, '\n'), 0o644)
 		}
 	}
+	// The slice of the property: functions with a clause tagged P, functions all of whose clauses
+	// are untagged, functions that use something tagged P - and, transitively, every function
+	// under contract that one of them calls: the run relies on the callee's contract (its frame
+	// above all), so the callee's own obligations belong to the same run. A callee that fails
+	// them makes the run UNDECIDED (its untagged obligations) or a violation (its P-relevant ones).
+	inSlice := map[string]bool{}
+	{
+		var work []string
+		for _, k := range keys {
+			fsq := sp.Funcs[k]
+			fi := prog.funcs[k]
+			if fsq == nil || fi == nil || fsq.Trusted {
+				continue
+			}
+			if funcInSlice(fsq, o.prop) || usesTagged(w, sp, prog, fi, fsq, o.prop) {
+				inSlice[k] = true
+				work = append(work, k)
+			}
+		}
+		for len(work) > 0 {
+			k := work[len(work)-1]
+			work = work[:len(work)-1]
+			fi := prog.funcs[k]
+			if fi == nil || fi.decl == nil || fi.decl.Body == nil || fi.pkg == nil {
+				continue
+			}
+			ast.Inspect(fi.decl.Body, func(n ast.Node) bool {
+				call, ok := n.(*ast.CallExpr)
+				if !ok {
+					return true
+				}
+				var obj types.Object
+				fun := ast.Unparen(call.Fun)
+				if ix, ok := fun.(*ast.IndexExpr); ok {
+					fun = ix.X
+				}
+				switch f := fun.(type) {
+				case *ast.Ident:
+					obj = fi.pkg.TypesInfo.Uses[f]
+				case *ast.SelectorExpr:
+					obj = fi.pkg.TypesInfo.Uses[f.Sel]
+				}
+				if fn, ok := obj.(*types.Func); ok {
+					ck := funcKeyOf(fn)
+					if cs := sp.Funcs[ck]; cs != nil && !cs.External && !cs.Trusted && pk[cs.Pkg] && prog.funcs[ck] != nil && !inSlice[ck] {
+						inSlice[ck] = true
+						work = append(work, ck)
+					}
+				}
+				return true
+			})
+		}
+	}
 	for _, k := range keys {
 		fsq := sp.Funcs[k]
 		if fsq == nil {
@@ -615,7 +668,7 @@ func runCheck(o *Options) (int, *Evidence) {
 			trusted = append(trusted, fi.name())
 			continue
 		}
-		if !funcInSlice(fsq, o.prop) && !usesTagged(w, sp, prog, fi, fsq, o.prop) {
+		if !inSlice[k] {
 			continue
 		}
 		if funcHasTag(fsq, o.prop) {
